@@ -1,0 +1,1 @@
+//! Hooks for property C42 (empty unless needed).
